@@ -81,11 +81,30 @@ package cipher
 //@   ensures forall j :: 1 + c.nonceSize <= j && j < 16 ==> counter[j] == old(counter[j])
 //@   modifies *counter
 
-// CBC-MAC absorption of data, zero-padded to whole blocks, into out (assumed frame: the functional
-// chaining is the same construction proved for cbcmac under C19)
-//@ func (*ccm).cmac trusted
-//@   requires len(out) == 16
+// CBC-MAC absorption of data, zero-padded to whole blocks, into out: out becomes the CBC chaining
+// value over the padded data started from its old content (unbounded length, recursive spec CBC)
+//@ func (*ccm).cmac property C04
+//@   requires c != nil && c.cipher != nil && BS(id(c.cipher)) == 16 && len(out) == 16 && !sameobj(out, data)
+//@   let K := id(c.cipher)
+//@   let T0 := CAT(ZEROARR(), 0, arr(out), offof(out), 16)
+//@   let DO := offof(data)
+//@   let DL := len(data)
+//@   let M := ZPAD(arr(data), offof(data), len(data))
+//@   ensures forall j :: 0 <= j && j < 16 ==> out[j] == CBC(K, T0, M, 0, 16, (DL + 15) / 16)[j]
 //@   modifies out[0..16]
+//@   loop 1 invariant sameobj(data, old(data)) && DO <= offof(data) && offof(data) + len(data) == DO + DL && (offof(data) - DO) % 16 == 0 && c.cipher != nil && id(c.cipher) == K
+//@   loop 1 invariant forall j :: 0 <= j && j < 16 ==> out[j] == CBC(K, T0, M, 0, 16, (offof(data) - DO) / 16)[j]
+//@   loop 1 invariant onlychanged(old(out))
+//@   loop 1 decreases len(data)
+//@   let QF := DL / 16
+//@   assert before call XORBytes#2: forall j :: 0 <= j && j < 16 ==> 0 <= CBC(K, T0, M, 0, 16, (offof(data) - DO) / 16)[j] && CBC(K, T0, M, 0, 16, (offof(data) - DO) / 16)[j] <= 255
+//@   assert before call XORBytes#2: (offof(data) - DO) / 16 == QF
+//@   assert before call Encrypt#2: (DL + 15) / 16 == QF + 1 && offof(data) - DO == 16 * QF && len(data) == DL - 16 * QF && 0 < len(data) && len(data) < 16
+//@   assert before call Encrypt#2: forall j :: 0 <= j && j < len(data) ==> out[j] == bxor8(CBC(K, T0, M, 0, 16, QF)[j], M[16 * QF + j])
+//@   assert before call Encrypt#2: forall j :: len(data) <= j && j < 16 ==> out[j] == CBC(K, T0, M, 0, 16, QF)[j] && M[16 * QF + j] == 0
+//@   assert before call Encrypt#2: forall j :: 0 <= j && j < 16 ==> 0 <= out[j] && out[j] <= 255
+//@   assert before call Encrypt#2: forall j :: 0 <= j && j < 16 ==> out[j] == bxor8(CBC(K, T0, M, 0, 16, QF)[j], M[16 * QF + j])
+//@   assert after call Encrypt#2: forall j :: 0 <= j && j < 16 ==> out[j] == ENC(K, XW(CBC(K, T0, M, 0, 16, QF), M, 16 * QF, 16))[j]
 
 //@ pred ccmok(c) := c != nil && c.cipher != nil && BS(id(c.cipher)) == 16 && 7 <= c.nonceSize && c.nonceSize <= 13 && 4 <= c.tagSize && c.tagSize <= 16 && c.tagSize % 2 == 0
 
